@@ -278,13 +278,23 @@ def sc_operation(role):
 
 def sc_operation_master_lost(role):
     c, _ = sc_operation(role)
-    b = c.sims[1]
+    b = c.sims[role - 1]
     c.net.down.add(c.sims[0].identifier)            # the Master dies
     T[0] += 5 * UNIT // 3
     b.tick()                                        # B publishes its TICK: the XML-RPC to the Master fails
     c.drain(until=lambda: b.state_modes.master_identifier == '', only=b)
     return c, ('OPERATION, then the Master (instance 1) dies; instance 2 publishes its TICK, the XML-RPC fails, the failure '
                'notification is handled: the Master is reset while the FSM is still in OPERATION (until the next TICK)')
+
+
+def sc_operation_jobs(role):
+    c, _ = sc_operation(role)
+    c.hold_requests = True
+    subject = c.sims[role - 1]
+    subject.rpc.start_process('CONFIG', 'app:p1', '', False)      # a user request (real XML-RPC) whose start request stays in flight
+    c.drain()
+    return c, ('OPERATION, then XML-RPC start_process(app:p1) on the subject: its start request stays in flight, the starting job '
+               'is in progress and published')
 
 
 def sc_conciliation(role):
@@ -314,6 +324,15 @@ def sc_shutting_down(role):
                                                         'flight, publications delivered until the subject is SHUTTING_DOWN')
 
 
+def sc_final_shutdown(role):
+    c = _ending(role, 'shutdown', S.SHUTTING_DOWN)
+    c.hold_requests = False
+    subject = c.sims[role - 1]
+    c.drain(until=lambda: subject.state == S.FINAL)
+    if subject.state != S.FINAL: c.run_until(lambda: subject.state == S.FINAL)
+    return c, 'SHUTTING_DOWN as above, then the stop requests are executed by the fake Supervisors: Master then others reach FINAL'
+
+
 def sc_final(role):
     c = _ending(role, 'restart', S.RESTARTING)
     c.hold_requests = False
@@ -323,20 +342,22 @@ def sc_final(role):
     return c, 'RESTARTING as above, then the stop requests are executed by the fake Supervisors: Master then others reach FINAL'
 
 
-SCENARIOS = [  # name, expected state, builder, roles
-    ('OFF', S.OFF, sc_off, (1, 2)),
-    ('SYNCHRONIZATION/USER', S.SYNCHRONIZATION, sc_sync_user, (1, 2)),
-    ('SYNCHRONIZATION/LIST', S.SYNCHRONIZATION, sc_sync_list, (1, 2)),
-    ('ELECTION', S.ELECTION, sc_election, (1, 2)),
-    ('DISTRIBUTION', S.DISTRIBUTION, sc_distribution, (1, 2)),
-    ('OPERATION', S.OPERATION, sc_operation, (1, 2)),
-    ('OPERATION/master-lost', S.OPERATION, sc_operation_master_lost, (2,)),
-    ('CONCILIATION', S.CONCILIATION, sc_conciliation, (1, 2)),
-    ('RESTARTING', S.RESTARTING, sc_restarting, (1, 2)),
-    ('SHUTTING_DOWN', S.SHUTTING_DOWN, sc_shutting_down, (1, 2)),
-    ('FINAL', S.FINAL, sc_final, (1, 2)),
+SCENARIOS = [  # name, expected state, builder, roles (quick), further roles (thorough)
+    ('OFF', S.OFF, sc_off, (1, 2), (3,)),
+    ('SYNCHRONIZATION/USER', S.SYNCHRONIZATION, sc_sync_user, (1, 2), (3,)),
+    ('SYNCHRONIZATION/LIST', S.SYNCHRONIZATION, sc_sync_list, (1, 2), ()),
+    ('ELECTION', S.ELECTION, sc_election, (1, 2), (3,)),
+    ('DISTRIBUTION', S.DISTRIBUTION, sc_distribution, (1, 2), (3,)),
+    ('OPERATION', S.OPERATION, sc_operation, (1, 2), (3,)),
+    ('OPERATION/jobs', S.OPERATION, sc_operation_jobs, (1, 2), (3,)),
+    ('OPERATION/master-lost', S.OPERATION, sc_operation_master_lost, (2,), (3,)),
+    ('CONCILIATION', S.CONCILIATION, sc_conciliation, (1, 2), (3,)),
+    ('RESTARTING', S.RESTARTING, sc_restarting, (1, 2), (3,)),
+    ('SHUTTING_DOWN', S.SHUTTING_DOWN, sc_shutting_down, (1, 2), (3,)),
+    ('FINAL', S.FINAL, sc_final, (1, 2), (3,)),
+    ('FINAL/shutdown', S.FINAL, sc_final_shutdown, (1, 2), (3,)),
 ]
-SCENARIO = {n: (st, fn, roles) for n, st, fn, roles in SCENARIOS}
+SCENARIO = {n: (st, fn, roles) for n, st, fn, roles, _ in SCENARIOS}
 
 
 
@@ -590,10 +611,10 @@ def public_methods():
             if not n.startswith('_') and (callable(v) or isinstance(v, staticmethod)) and not isinstance(v, property)]
 
 
-def matrix(methods, scenarios=None):
-    for scenario, st, fn, roles in SCENARIOS:
+def matrix(methods, scenarios=None, all_roles=False):
+    for scenario, st, fn, roles, more in SCENARIOS:
         if scenarios and scenario not in scenarios: continue
-        for role in roles:
+        for role in roles + (more if all_roles else ()):
             for method in methods:
                 for label, args in (variants(method) or []):
                     yield scenario, role, method, label, args
@@ -703,8 +724,18 @@ def translate(chk):
 def run(chk):
     quick = chk.tier == 'quick'
     stats = new_stats()
-    translate(chk)
-    chk.prove('Supv.Props.C17', extra_targets=['drv_c17'])
+    for attempt in range(4):
+        # translate + build; another check running at the same time on another source tree (mutation experiments) may
+        # regenerate Gen/RpcGuards.lean in between: the build only counts if the generated file is still ours afterwards
+        base = len(chk.obligations)
+        translate(chk)
+        chk.prove('Supv.Props.C17', extra_targets=['drv_c17'])
+        keep = len(chk.obligations)
+        translate(chk)
+        stable = not any(n == 'translator:rpc:table' and 'rewritten' in d for n, _, d in chk.obligations[keep:])
+        del chk.obligations[keep:]
+        if stable: break
+        del chk.obligations[base:]
     if not quick: chk.leanchecker(['Supv.Props.C17'])
     methods = public_methods()
     unknown = [m for m in methods if variants(m) is None]
@@ -712,7 +743,7 @@ def run(chk):
     run_matrix(chk, load_corpus(), stats, fresh=True)
     # the complete matrix; the seed only permutes the order of the calls inside one (scenario, role) group, i.e. which
     # calls share a history in the quick tier
-    cells = list(matrix(methods))
+    cells = list(matrix(methods, all_roles=not quick))
     rnd = random.Random(chk.seed); groups = {}
     for c in cells: groups.setdefault((c[0], c[1]), []).append(c)
     for g in groups.values(): rnd.shuffle(g)
@@ -734,7 +765,7 @@ def run(chk):
                 'effect; distinct = distinct (scenario, role, method, arguments)',
         'exhaustive': True,
         'matrix': {'methods': len(methods), 'scenarios': [n for n, *_ in SCENARIOS], 'roles': 'instance 1 (Master / becomes Master), '
-                   'instance 2 (non-Master)', 'cells': len(cells), 'states_reached': [list(x) for x in reached]},
+                   'instance 2 (non-Master)' + ('' if quick else ', instance 3 (non-Master, hosts the running process of `app`)'), 'cells': len(cells), 'states_reached': [list(x) for x in reached]},
         'samples': samples, 'outcomes': stats['outcomes'], 'cells_by_scenario': stats['by_scenario'],
         'cells_by_parameter_class': stats['by_label'], 'model_prediction_kinds': stats['model_kinds'],
         'calls_with_observable_effect': stats['with_effect'], 'histories_built': stats['histories_built'],
@@ -776,8 +807,8 @@ def replay(chk, path):
 
 if __name__ == '__main__':
     t0 = core._clock()
-    for name, st, fn, roles in SCENARIOS:
-        for role in roles:
+    for name, st, fn, roles, more in SCENARIOS:
+        for role in roles + more:
             c, how = fn(role); sub = c.sims[role - 1]
             print(f'{name:24s} role={role} state={sub.state.name:16s} {situation(sub)}')
     print('total', core._clock() - t0)
